@@ -323,7 +323,9 @@ def _validate_axis_and_eps(x_shape: List[int], scale_axis: Any,
      scale_axis.
 
   Returns:
-    A Tuple of verified (scale_axis, elements_per_scale).
+    A Tuple of verified (scale_axis, elements_per_scale). Lists are returned
+    as new lists with the axes in ascending order (every elements_per_scale
+    staying with its axis).
   """
 
   assert (
@@ -369,6 +371,14 @@ def _validate_axis_and_eps(x_shape: List[int], scale_axis: Any,
   assert (
       isinstance(scale_axis, int) and isinstance(elements_per_scale, int)
   ) or (isinstance(scale_axis, list) and isinstance(elements_per_scale, list))
+
+  if isinstance(scale_axis, list):
+    # the axes are unrolled and rolled back one after the other, every axis
+    # shifting the ones behind it: that needs them in ascending order. The
+    # order in which the (axis, elements_per_scale) pairs are listed is free.
+    pairs = sorted(zip(scale_axis, elements_per_scale))
+    scale_axis = [axis for axis, _ in pairs]
+    elements_per_scale = [eps for _, eps in pairs]
 
   return scale_axis, elements_per_scale
 
